@@ -916,10 +916,10 @@ iwrc iwal_online_backup(struct iwkv *iwkv, uint64_t *ts, const char *target_file
   rc = _lock(wal);
   RCRET(rc);
   if (wal->bkp_stage) {
-    rc = IWKV_ERROR_BACKUP_IN_PROGRESS;
-  } else {
-    wal->bkp_stage = BKP_STARTED;
+    _unlock(wal);
+    return IWKV_ERROR_BACKUP_IN_PROGRESS; // leave the running backup, its stage and the target file alone
   }
+  wal->bkp_stage = BKP_STARTED;
   _unlock(wal);
 
 #ifndef _WIN32
